@@ -117,6 +117,17 @@ def c15_pass(prefix: str) -> List[Dict[str, Any]]:
                                   'level': b.level or 0,
                                   'suit': 5 if b.suit is None else b.suit.value - 1})(Bid(a + 1)))
         R.add('bid.from_int', {'a': a}, lambda: {'out': Bid.int_to_bid(a).idx})
+        # the index as numpy hands it over (np.argmax / np.flatnonzero on the vector of
+        # available calls): a refusal is accepted, another call is not
+        try:
+            import numpy as np
+            for conv in (np.int64, np.intp, np.int32):
+                n0 = len(R.evs)
+                R.add('bid.from_int', {'a': a}, lambda: {'out': Bid.int_to_bid(conv(a)).idx})
+                if R.evs[-1]['raised'] and 'TypeError' in R.evs[-1].get('msg', '') and len(R.evs) == n0 + 1:
+                    R.evs.pop()
+        except ImportError:
+            pass
     for level in range(1, 8):
         for s in range(5):
             R.add('bid.from_level_suit', {'level': level, 'suit': s},
